@@ -183,6 +183,7 @@ def scramble(h, codes, trace=None, warmup=None):
          (e is inserted again should the call have removed it)
       8  remove a hyperedge, ask the queries, insert it again (the last mutation is an insertion)
       9  insert an extra hyperedge, ask the queries, remove it (the last mutation is a removal)
+     15  (unweighted) an existing hyperedge inserted again after another insertion
      14  the hypergraph-level metadata replaced wholesale ({'name': 'toy'})
      12  copy(), edit and query the COPY, drop it; go on with the original
      13  read everything through the public API, ask the queries, clear(), rebuild
@@ -202,7 +203,9 @@ def scramble(h, codes, trace=None, warmup=None):
         z = fresh_label(nodes)
         edges = list(h.get_edges())
         a = sorted(nodes, key=repr)[0]
-        code = code % 15
+        code = code % 16
+        if code == 15 and h.is_weighted():
+            code = 4
         if code == 10 and (kind == "DirectedHypergraph" or z is None or not edges):
             code = 4
         if code == 7 and kind not in ("Hypergraph", "DirectedHypergraph"):
@@ -215,7 +218,7 @@ def scramble(h, codes, trace=None, warmup=None):
         if code == 2 and hasattr(h, "copy"):
             h = h.copy()
             step = "copy()"
-        elif code in (5, 8, 9, 11) and edges and len(nodes) >= 2:
+        elif code in (5, 8, 9, 11, 15) and edges and len(nodes) >= 2:
             import itertools
             variant = code
             e = edges[0]
@@ -253,7 +256,15 @@ def scramble(h, codes, trace=None, warmup=None):
                     raise
                 except Exception:  # noqa: the warm-up only populates caches
                     pass
-            if other is not None and variant == 11:
+            if other is not None and variant == 15:
+                # an existing hyperedge inserted again, but not as the very next insertion
+                # (unweighted: idempotent); per-node tables must not list it twice
+                m0 = dc(get(e)[1])
+                add(other)
+                add(e, metadata=m0)      # (its metadata handed over again: unchanged content)
+                rem(other)
+                step = "insert %r, insert the existing %r again, remove %r" % (other, e, other)
+            elif other is not None and variant == 11:
                 # an insertion that the container may refuse: a weight other than 1 on an
                 # unweighted container (documented ValueError), or -- every other time, and always
                 # on weighted containers -- metadata that is not a dict (accepted today; a
@@ -482,8 +493,10 @@ def scramble(h, codes, trace=None, warmup=None):
                     step = "add_edge+remove_edge(%r)" % (cand,)
             elif code == 1 and z is not None:
                 h.add_edge((a, z))
+                for b in sorted(nodes, key=repr)[1:3]:
+                    h.add_edge((b, z))          # Z belongs to several hyperedges
                 h.remove_node(z)
-                step = "add_edge((%r, %r)); remove_node(%r)" % (a, z, z)
+                step = "add_edge((%r, %r)) [+ others with %r]; remove_node(%r)" % (a, z, z, z)
             elif (code == 3 and z is not None and edges and not h.is_weighted()
                   and h.get_edge_metadata(tuple(edges[0])) == {}):
                 e = tuple(edges[0])
@@ -501,8 +514,11 @@ def scramble(h, codes, trace=None, warmup=None):
                         break
             elif code == 1 and z is not None:
                 h.add_edge(((z,), (a,)))
+                for b in sorted(nodes, key=repr)[1:3]:
+                    h.add_edge(((z,), (b,)))    # Z is a source of several hyperedges ...
+                    h.add_edge(((b,), (z,)))    # ... and a target of several
                 h.remove_node(z)
-                step = "add_edge(((%r,), (%r,))); remove_node(%r)" % (z, a, z)
+                step = "add_edge(((%r,), (%r,))) [+ others with %r]; remove_node(%r)" % (z, a, z, z)
         elif kind == "TemporalHypergraph":
             t = 0
             if code in (0, 3) and len(nodes) >= 1:
@@ -513,8 +529,9 @@ def scramble(h, codes, trace=None, warmup=None):
                     step = "add_edge+remove_edge(%r, %r)" % (cand, t)
             elif code == 1 and z is not None:
                 h.add_edge((a, z), t)
+                h.add_edge((a, z), t + 1)       # Z in several records
                 h.remove_node(z)
-                step = "add_edge((%r, %r), %r); remove_node(%r)" % (a, z, t, z)
+                step = "add_edge((%r, %r), %r) [+ at %r]; remove_node(%r)" % (a, z, t, t + 1, z)
         elif kind == "MultiplexHypergraph":
             layers = sorted(h.get_existing_layers(), key=repr)
             if layers and code in (0, 3):
@@ -545,7 +562,7 @@ def history_codes(*parts):
     if int(d[0], 16) < 8:
         return []
     n = 1 + int(d[1], 16) % 3
-    return [int(d[2 + 2 * i:4 + 2 * i], 16) % 15 for i in range(n)]
+    return [int(d[2 + 2 * i:4 + 2 * i], 16) % 16 for i in range(n)]
 
 
 def default_warmup(h):
